@@ -63,6 +63,7 @@ class Scenario:
         self.script_pos = 0
         self.fail_budget = cfg.get("faults", 0)
         self.cancel_budget = cfg.get("cancels", 0)
+        self.timed_out = False
         self.step_task = None
         self.errors: list[str] = []
         self.nontrivial = False
@@ -87,8 +88,9 @@ class Scenario:
                     await agen.aclose()
                     agen = self.gw.listen()
                 except asyncio.CancelledError:
-                    if not self.step_task.cancelled():
-                        raise
+                    if not self.timed_out:
+                        raise  # the listener itself is being cancelled (end of the execution)
+                    self.timed_out = False
                     await agen.aclose()
                     agen = self.gw.listen()
         finally:
@@ -131,6 +133,7 @@ class Scenario:
         elif label == "timeout":
             self.cancel_budget -= 1
             self.nontrivial = True
+            self.timed_out = True
             self.step_task.cancel()
         elif label.endswith(":fail"):
             self.fail_budget -= 1
